@@ -74,6 +74,7 @@ pub fn generate(tier: &str, rng: &mut Prng) -> Vec<Case> {
         ops.push(Case::new(format!("verify {n} {} {} {}", hex(&msg), hex(&sig), hex(&pk))));
     }
     crate::c02::padding_bit_ops(tier, rng, &mut ops);
+    crate::c02::unary_run_ops(&mut ops);
     // verify behind decoders that accepted something unusual: mutated public keys and signatures (one thing wrong: a
     // length off by one, a header bit, a field at the range limit, trailing bytes) go through from_bytes and, when accepted,
     // on into verify
